@@ -99,8 +99,13 @@ def r2(ctx):
                 else:
                     readers.append((f, n))
     ctx.floor("R2", len(readers), 1, "reads of constants.always_return_list")
+    from ..util import closure
+    gi0 = A.methods.get("__getitem__")
+    b0 = ctx.proj.maybe_func("interface.FeatureDB.bed12")
+    view_fns = ({gi0} | set(closure(ctx, gi0))) if gi0 is not None else set()
+    bed_fns = ({b0} | set(closure(ctx, b0))) if b0 is not None else set()
     for f, n in readers:
-        ok = (f.cls is A and f.name == "__getitem__") or f.qual == "interface.FeatureDB.bed12"
+        ok = f in view_fns or f in bed_fns
         ctx.ob("R2", ok, "the always_return_list switch is consulted only when a value is viewed (Attributes.__getitem__)", node=n, func=f,
                sig="always_return_list read in %s" % f.qual.split(".", 1)[1])
     gi = A.methods.get("__getitem__")
@@ -122,19 +127,11 @@ def r2(ctx):
                 label, switch, "unchanged" if o.attrs["_d"].get("key") is stored else "replaced"), nontrivial=False)
     # bed12 saves and restores
     for f, n in writers:
-        ctx.ob("R2", f.qual == "interface.FeatureDB.bed12", "the switch is only ever set (temporarily) by bed12", node=n, func=f,
+        ctx.ob("R2", f in bed_fns, "the switch is only ever set (temporarily) by bed12", node=n, func=f,
                sig="always_return_list written in %s" % f.qual.split(".", 1)[1], nontrivial=False)
-    b = ctx.proj.maybe_func("interface.FeatureDB.bed12")
-    if b is not None and any(f is b for f, _ in writers):
-        bcfg = cfg_of(b)
-        ws = [p for f, n in writers if f is b for p in parents(n) if isinstance(p, ast.Assign)]
-        saves = [n for n in ast.walk(b.node) if isinstance(n, ast.Assign) and norm(n.value) == "constants.always_return_list"]
-        restore = [w for w in ws if saves and is_name(w.value, saves[0].targets[0].id)]
-        sets = [w for w in ws if w not in restore]
-        ok = bool(saves) and bool(restore) and bool(sets) and all(bcfg.postdominates(bcfg.node_for(restore[0]).id, bcfg.node_for(s).id) for s in sets) \
-            and bcfg.dominates(bcfg.node_for(saves[0]).id, bcfg.node_for(sets[0]).id)
-        ctx.ob("R2", ok, "bed12 restores the switch to its saved value on every normal path", func=b,
-               sig="bed12 saves/sets/restores the switch" if ok else "bed12 can leave the switch changed")
+    if writers:
+        from .c18 import switch_restored
+        switch_restored(ctx, rule="R2")
 
 
 def r4(ctx):
